@@ -95,6 +95,12 @@ ZERO = 1 << 24
 
 
 def dec_items(v, bits=None):
+    if isinstance(v, Union) and all(isinstance(x, int) and not isinstance(x, bool) for _, x in v.alts):
+        # integers merged before their width was known: widest plausible width (u64) keeps the value exact
+        acc = z3.BitVecVal(v.alts[-1][1], 64)
+        for g, x in reversed(v.alts[:-1]):
+            acc = z3.If(g, z3.BitVecVal(x, 64), acc)
+        return [Seg("dec", acc, 64)]
     if isinstance(v, bool):
         return [ord(c) for c in ("true" if v else "false")]
     if isinstance(v, int):
@@ -171,6 +177,8 @@ def register(I, R, hooks):
         f = s2.store[cell]
         st.store.update(s2.store)
         del st.store[cell]
+        if isinstance(f.buf, Union):
+            raise Unsupported("Display impl of %s produced a union rope" % v.ty)
         return f.buf.items
 
     def char_display(c):
@@ -297,6 +305,19 @@ def register(I, R, hooks):
         raise Unsupported("format argument kind " + k)
 
     def render(I, a, st):
+        # arguments containing guarded unions (at any depth): render per union-free instance and merge the ropes
+        for idx, arg in enumerate(a.args):
+            v = deref_all(I, arg.v, st)
+            inst = flatten_value(v)
+            if len(inst) > 1:
+                alts = []
+                for g, x in inst:
+                    if not I.feasible(st.pc, g):
+                        continue
+                    args2 = list(a.args)
+                    args2[idx] = FmtArg(arg.kind, x)
+                    alts.append((g, render(I, ArgsV(a.pieces, args2), st.fork(g))))
+                return merge_many(alts)
         out = []
         for p in a.pieces:
             if p[0] == "lit":
@@ -354,7 +375,16 @@ def register(I, R, hooks):
         f = I.read_ref(fref, st)
         if not isinstance(f, FormatterV):
             raise Unsupported("write into %r" % (f,))
-        I.write_cell(fref.key, fref.path, FormatterV(StringV(f.buf.items + tuple(items)), f.flags, f.width), st)
+        add = items if isinstance(items, (StringV, Union)) else StringV(items)
+        if isinstance(f.buf, Union) or isinstance(add, Union):
+            alts = []
+            for g1, b1 in alts_of(f.buf):
+                for g2, b2 in alts_of(add):
+                    alts.append((b_and(g1, g2), StringV(b1.items + b2.items)))
+            buf = merge_many(alts)
+        else:
+            buf = StringV(f.buf.items + add.items)
+        I.write_cell(fref.key, fref.path, FormatterV(buf, f.flags, f.width), st)
 
     @reg("Formatter::write_str")
     def write_str(I, st, args, info):
@@ -363,7 +393,7 @@ def register(I, R, hooks):
 
     @reg("Formatter::write_fmt")
     def write_fmt(I, st, args, info):
-        fmt_write(I, st, args[0], render(I, args[1], st).items)
+        fmt_write(I, st, args[0], render(I, args[1], st))
         return ok_unit()
 
     @reg("Display::fmt")
